@@ -1,4 +1,4 @@
 From Coq Require Import Extraction ExtrOcamlBasic.
 From CV Require Import Base.Num C08.ModuleModel.
 Extraction Language OCaml.
-Extraction "model.ml" mkNumOps mkCvc mkVar mkBias mkOut EStep KHarmonic run_kinds coord_force tf_trace tf_trace_routed.
+Extraction "model.ml" mkNumOps mkCvc mkVar mkBias mkOut EStep KHarmonic run_kinds coord_force tf_trace tf_trace_routed jac_force.
